@@ -205,6 +205,8 @@ struct Scenario {
     solo_op: SoloOp,
     /// pause the solo thread at its event j and let the writer complete this many more updates
     solo_pause: Option<(usize, usize)>,
+    /// SoloOp::TryUpdate: this many calls in a row (increasing bases)
+    repeat: usize,
 }
 
 fn scenario_json(idx: u64, s: &Scenario) -> Json {
@@ -217,6 +219,7 @@ fn scenario_json(idx: u64, s: &Scenario) -> Json {
         .with("writer_frozen_at_event", Json::U(s.freeze_at as u64))
         .with("second_writer_blocked_behind", Json::Bool(s.second_writer))
         .with("solo_op", Json::Str(format!("{:?}", s.solo_op)))
+        .with("solo_calls_in_a_row", Json::U(s.repeat as u64))
         .with("solo_paused_at_event_and_writer_updates_meanwhile", match s.solo_pause {
             None => Json::Null,
             Some((j, c)) => Json::Arr(vec![Json::U(j as u64), Json::U(c as u64)]),
@@ -225,7 +228,7 @@ fn scenario_json(idx: u64, s: &Scenario) -> Json {
 
 struct Outcome {
     solo_events: Vec<SoloEv>,
-    solo_result: Result<(u64, u64, bool), String>, // (base, voucher bits, try_update result)
+    solo_result: Result<(u64, u64, bool, bool), String>, // (base, voucher bits, every try_update returned true, some try_update returned true)
     writer_frozen: bool,
     writer_trace: Vec<(Op, bool)>,
     lock_held_when_frozen: bool,
@@ -326,6 +329,7 @@ fn run_scenario(s: &Scenario, salt: u64) -> Result<Outcome, Fail> {
     }
     let abt_s = abt.clone();
     let solo_op = s.solo_op;
+    let repeat = s.repeat;
     let (tx, rx) = std::sync::mpsc::channel();
     let solo = std::thread::spawn(move || {
         ROLE.with(|r| *r.borrow_mut() = Some(Role::Solo));
@@ -334,18 +338,24 @@ fn run_scenario(s: &Scenario, salt: u64) -> Result<Outcome, Fail> {
         let r = std::panic::catch_unwind(std::panic::AssertUnwindSafe(|| match solo_op {
             SoloOp::Snapshot => {
                 let (b, v) = abt_s.snapshot();
-                (b, voucher_bits(v), true)
+                (b, voucher_bits(v), true, true)
             }
             SoloOp::TryUpdate => {
-                let b = salt + 5_000_000;
-                let ok = abt_s.try_update((b, CRATE_PARAMS.vouch(b)));
+                let mut all = true;
+                let mut any = false;
+                for j in 0..repeat as u64 {
+                    let b = salt + 5_000_000 + j;
+                    let ok = abt_s.try_update((b, CRATE_PARAMS.vouch(b)));
+                    all &= ok;
+                    any |= ok;
+                }
                 // The follow-up snapshot stays instrumented (a blocking lock
                 // against the frozen holder must still be a deterministic
                 // event, not a hang), but only the events up to this mark
                 // belong to the judged try_update call.
                 SOLO_MARK.with(|m| *m.borrow_mut() = SOLO_LOG.with(|l| l.borrow().len()));
                 let (sb, sv) = abt_s.snapshot();
-                (sb, voucher_bits(sv), ok)
+                (sb, voucher_bits(sv), all, any)
             }
         }));
         ROLE.with(|r| *r.borrow_mut() = None);
@@ -406,7 +416,7 @@ fn run_scenario(s: &Scenario, salt: u64) -> Result<Outcome, Fail> {
 
 fn judge(s: &Scenario, o: &Outcome, salt: u64) -> Result<(), Fail> {
     let v = |sig: &str, what: String| Fail { sig: sig.to_string(), what, inconclusive: false };
-    let (base, bits, try_ok) = match &o.solo_result {
+    let (base, bits, try_ok, try_any) = match &o.solo_result {
         Err(p) if p.contains("WOULD-WAIT") => {
             return Err(v("would-wait", format!("{:?} requested a blocking lock while the lock's holder was suspended: it would wait for the writer", s.solo_op)));
         }
@@ -432,12 +442,12 @@ fn judge(s: &Scenario, o: &Outcome, salt: u64) -> Result<(), Fail> {
             if lock_ops != 0 {
                 return Err(v("try_update-blocking-lock", "try_update performed a blocking lock()".into()));
             }
-            if try_lock_ops != 1 {
-                return Err(v("try_update-lock-attempts", format!("try_update performed {} non-blocking lock attempts (expected exactly one)", try_lock_ops)));
+            if try_lock_ops != s.repeat {
+                return Err(v("try_update-lock-attempts", format!("{} try_update call(s) performed {} non-blocking lock attempts (expected exactly one each)", s.repeat, try_lock_ops)));
             }
         }
     }
-    let bound = 8 * (1 + completed_during);
+    let bound = 8 * (1 + completed_during) * s.repeat;
     if atomic_steps > bound {
         return Err(v("too-many-steps", format!("{:?} took {} atomic steps with {} update(s) completing during the call (bound {})", s.solo_op, atomic_steps, completed_during, bound)));
     }
@@ -456,7 +466,10 @@ fn judge(s: &Scenario, o: &Outcome, salt: u64) -> Result<(), Fail> {
         return Err(Fail { sig: "torn".into(), what: format!("returned base {} with a voucher for another value", base), inconclusive: false });
     }
     let total_updates = s.pre_complete + 1 + s.solo_pause.map(|p| p.1).unwrap_or(0);
-    let mut members: Vec<u64> = vec![0, salt + 900_000, salt + 5_000_000];
+    let mut members: Vec<u64> = vec![0, salt + 900_000];
+    for j in 0..s.repeat as u64 {
+        members.push(salt + 5_000_000 + j);
+    }
     for i in 0..total_updates {
         members.push(w1_base(i, salt));
     }
@@ -472,13 +485,13 @@ fn judge(s: &Scenario, o: &Outcome, salt: u64) -> Result<(), Fail> {
     if s.solo_op == SoloOp::TryUpdate {
         // the lock is held iff the writer froze while holding it (or a second writer sits behind it)
         let held = o.writer_frozen && o.lock_held_when_frozen && s.solo_pause.is_none();
-        if held && try_ok {
+        if held && try_any {
             return Err(v("try_update-true-while-locked", "try_update returned true while another writer held the lock".into()));
         }
         if !held && s.solo_pause.is_none() && !try_ok {
             return Err(v("try_update-false-while-free", "try_update returned false although no writer held the lock and its base was the newest".into()));
         }
-        if try_ok && base != salt + 5_000_000 {
+        if try_ok && base != salt + 5_000_000 + s.repeat as u64 - 1 {
             return Err(v("try_update-lost", format!("try_update returned true but a snapshot right after returned base {}", base)));
         }
     }
@@ -598,17 +611,25 @@ pub fn run(ctx: &mut Ctx) {
                         if second && (writer_op == WriterOp::TryUpdate || pre > 1) {
                             continue;
                         }
-                        scenarios.push(Scenario { target_static: false, writer_op, pre_complete: pre, freeze_at, second_writer: second, solo_op, solo_pause: None });
+                        scenarios.push(Scenario { target_static: false, writer_op, pre_complete: pre, freeze_at, second_writer: second, solo_op, solo_pause: None, repeat: 1 });
                     }
                 }
             }
+        }
+    }
+    // many try_update calls in a row against one frozen writer (accumulated
+    // per-object state: counters of lost races, back-off, ...)
+    let many = ctx.args.get_u64("try-repeat", 80) as usize;
+    for writer_op in [WriterOp::Update, WriterOp::TryUpdate] {
+        for freeze_at in 0..max_freeze {
+            scenarios.push(Scenario { target_static: false, writer_op, pre_complete: 1, freeze_at, second_writer: false, solo_op: SoloOp::TryUpdate, solo_pause: None, repeat: many });
         }
     }
     // pause variants: solo parked at each of its first 8 events while the writer completes c updates
     for j in 0..8usize {
         for c in 0..=2usize {
             for freeze_at in [0usize, 7, 9, 11, 13] {
-                scenarios.push(Scenario { target_static: false, writer_op: WriterOp::Update, pre_complete: 1, freeze_at, second_writer: false, solo_op: SoloOp::Snapshot, solo_pause: Some((j, c)) });
+                scenarios.push(Scenario { target_static: false, writer_op: WriterOp::Update, pre_complete: 1, freeze_at, second_writer: false, solo_op: SoloOp::Snapshot, solo_pause: Some((j, c)), repeat: 1 });
             }
         }
     }
@@ -663,13 +684,16 @@ pub fn run(ctx: &mut Ctx) {
                         }
                     }
                     if s.solo_op == SoloOp::TryUpdate {
-                        if let Ok((_, _, ok)) = o.solo_result {
+                        if let Ok((_, _, ok, _)) = o.solo_result {
                             ctx.feature(if ok { "park.try_update_true" } else { "park.try_update_false_lock_held" });
+                            if s.repeat > 1 {
+                                ctx.feature(if ok { "park.many_try_updates_in_a_row_lock_free" } else { "park.many_try_updates_in_a_row_lock_held" });
+                            }
                         }
                     }
                     ctx.ops += o.solo_events.len() as u64;
                     if o.writer_frozen || s.solo_pause.is_some() {
-                        ctx.signature(mix(&[s.writer_op as u64, s.pre_complete as u64, s.freeze_at as u64, s.second_writer as u64, s.solo_op as u64, s.solo_pause.map(|p| (p.0 * 8 + p.1 + 1) as u64).unwrap_or(0)]));
+                        ctx.signature(mix(&[s.writer_op as u64, s.pre_complete as u64, s.freeze_at as u64, s.second_writer as u64, s.solo_op as u64, s.solo_pause.map(|p| (p.0 * 8 + p.1 + 1) as u64).unwrap_or(0), s.repeat as u64]));
                     }
                     if idx % 97 == 0 {
                         ctx.sample(3, || scenario_json(idx, s).with("solo_atomic_steps", Json::U(steps)).with("writer_was_frozen", Json::Bool(o.writer_frozen)));
